@@ -20,7 +20,8 @@ META = {
         'waiting dependencies and inserts dependency rows with the provider looked up by (id, version). '
         'R6: the skip test dominates every write of a lexicon. R10: _update_lookup_tables registers, unconditionally and '
         'unfiltered, the relation types of all synset relations (external synsets included) and all sense relations of the '
-        'lexicon being added, so no later sub-select depends on lookup rows left by other lexicons.'),
+        'lexicon being added, so no later sub-select depends on lookup rows left by other lexicons. R11: no INSERT of the '
+        'importer uses REPLACE conflict handling, and OR IGNORE only on the shared lookup tables.'),
     'decides': ['cascade closure', 'FK enforcement per connection', 'single writer', 'remove shape', 'dependency relink',
                 'skip dominance', 'no state outside the database', 'lookup tables complete for the lexicon being added'],
     'not_decided': ['equality of database images across histories', 'rowid reuse effects'],
@@ -484,6 +485,35 @@ def r10_lookup_tables_complete(ctx, res):
                 res.find(k2, v.loc(hits[0][4]), f'_update_lookup_tables registers the values of {list(loops)} in {table} only when {sorted(hits[0][2])}')
 
 
+LOOKUP_TABLES = {'relation_types', 'lexfiles', 'ili_statuses', 'ilis'}
+
+
+def r11_no_replacing_inserts(ctx, res):
+    """add() never resolves a uniqueness conflict by deleting an existing row: `INSERT OR REPLACE` / `REPLACE INTO` on a content
+    table removes the conflicting row - possibly one owned by another lexicon (an extension's form colliding with the base's on
+    the per-entry unique key) together with its cascaded children - and remove() of the newcomer then takes the replacement away,
+    so the survivor differs from a fresh add.  `OR IGNORE` is allowed only on the shared lookup tables and the presupposed ILIs."""
+    n = 0
+    for s in ctx.sites:
+        if s.func.module.short != '_add':
+            continue
+        for v in s.variants:
+            st = v.stmt
+            if st is None or st.verb not in ('INSERT', 'REPLACE'):
+                continue
+            n += 1
+            key = f'conflict-clause:{s.func.key}:{st.target}'
+            res.inst(key, s.loc, f'{st.verb}{" OR " + st.or_clause if st.or_clause else ""} INTO {st.target}')
+            if st.verb == 'REPLACE' or st.or_clause == 'REPLACE':
+                res.find(key, s.loc, f'{s.func.qualname} inserts into {st.target} with REPLACE conflict handling: a row already stored (for '
+                                     f'an extension: a row of the base lexicon) that collides on a unique key is deleted with its children')
+            elif st.or_clause is not None and st.target not in LOOKUP_TABLES:
+                res.find(key, s.loc, f'{s.func.qualname} inserts into the content table {st.target} with OR {st.or_clause}: whether the row is '
+                                     f'stored depends on what other lexicons put there before')
+    if n < 25:
+        raise AnalysisError(f'only {n} INSERT statement variants found in wn/_add.py')
+
+
 RULES = [
     ('C05-R1', r1_cascade_closure, 40),
     ('C05-R2', r2_fk_enforcement, 3),
@@ -495,4 +525,5 @@ RULES = [
     ('C05-R8', r8_no_stale_state, 200),
     ('C05-R9', r9_selection_materialised, 3),
     ('C05-R10', r10_lookup_tables_complete, 3),
+    ('C05-R11', r11_no_replacing_inserts, 25),
 ]
